@@ -103,9 +103,18 @@ class Watchdog(threading.Thread):
             time.sleep(2)
 
 
+def prune_kani_target():
+    """every distinct build of the crate leaves a directory of goto binaries behind; keep the two newest"""
+    import glob
+    dirs = sorted(glob.glob(os.path.join(WORK, "kani", "kani", "*", "debug", "build", "flac-codec", "*")), key=os.path.getmtime)
+    for d in dirs[:-2]:
+        shutil.rmtree(d, ignore_errors=True)
+
+
 def run_kani(obls, tag, extra=None, jobs=None):
     """one cargo-kani invocation for all harnesses in obls; returns dict harness -> result"""
     ensure_work()
+    prune_kani_target()
     out_json = os.path.join(WORK, f"kani-{tag}.json")
     log_path = os.path.join(WORK, f"kani-{tag}.log")
     if os.path.exists(out_json):
@@ -199,6 +208,14 @@ def classify_kani(o, res):
             real.append(c)
     det = {"duration_s": r["duration_ms"] / 1000.0, "stats": r["stats"], "n_checks": len(checks),
            "covers_satisfied": len(covers) - len(unsat_cov), "covers_total": len(covers)}
+    if real and ignored and not o.artefacts_ok:
+        # CBMC's memory model lost track (artefacts of dropping io::Error / Vec values with checks off) in a harness
+        # that does not show them on the unchanged tree: values read afterwards may be garbage, so a contract
+        # failure reported together with them is not trustworthy -> undecided, never an alarm
+        det["reason"] = "contract check failed together with new memory-model artefacts; result not trustworthy: " + "; ".join(
+            sorted({c.get("description", "")[:80] for c in real}))
+        det["ignored_tool_artefacts"] = len(ignored)
+        return "undecided", det
     if real:
         det["failed_checks"] = real
         return "failed", det
